@@ -9,6 +9,10 @@
 (* toasty/__init__.py tile_fits (returns tiler.builder).  Names and        *)
 (* templates are those of Wtml.tla, so the directory content the machine   *)
 (* predicts is checked against the template sentences in every state.      *)
+(* The calls of one history are made by ONE process; `cache` stands for    *)
+(* whatever that process may keep between calls (ReturnedAgrees must       *)
+(* survive it: the shortest refutation of a cache that override fails to   *)
+(* invalidate is fresh(X), reuse, override(Y # X), reuse - four calls).    *)
 (***************************************************************************)
 EXTENDS Wtml
 
@@ -18,7 +22,11 @@ CONSTANTS Inputs,          \* names of (FITS collection, tiling method) configur
           MaxLen,          \* bound on the number of calls
           ReuseRestores,   \* TRUE: reuse fills the returned description from the WTML on disk (intended);
                            \* FALSE: it returns the freshly constructed Builder (fits_tiler.py as found)
-          OverrideClears   \* TRUE: override removes the old directory first
+          OverrideClears,  \* TRUE: override removes the old directory first
+          Cache            \* process-lifetime memo of the description recovered on reuse:
+                           \*   "none"  - every reuse reads index_rel.wtml (fits_tiler.py as repaired)
+                           \*   "sound" - reuse remembers what it read; override forgets it
+                           \*   "stale" - ... but override fails to forget it (e.g. keyed by another spelling of the path)
 
 Desc(i) == [id |-> i, url |-> Template(Scheme, Ext), ftype |-> FileType(Ext), levels |-> Deepest(Pop[i])]
 (* Builder(PyramidIO(out_dir, default_format=...)) before anything was tiled *)
@@ -30,10 +38,14 @@ VARIABLES present,   \* the output directory exists
           wtml,      \* the description recorded in index_rel.wtml
           files,     \* names of the tile files in the directory
           ret,       \* the description handed back by the last call
-          hist       \* the calls so far, with what each one left behind
-vars == <<present, wtml, files, ret, hist>>
+          hist,      \* the calls so far, with what each one left behind
+          cache      \* what the calling process remembers about this directory (NoDesc: nothing)
+vars == <<present, wtml, files, ret, hist, cache>>
 
-Init == /\ present = FALSE /\ wtml = NoDesc /\ files = {} /\ ret = NoDesc /\ hist = <<>>
+Init == /\ present = FALSE /\ wtml = NoDesc /\ files = {} /\ ret = NoDesc /\ hist = <<>> /\ cache = NoDesc
+
+(* what a reuse hands back when it does restore the description *)
+Recovered == IF Cache # "none" /\ cache # NoDesc THEN cache ELSE wtml
 
 Kind(ov) == IF ~present THEN "fresh" ELSE IF ov THEN "override" ELSE "reuse"
 
@@ -46,7 +58,10 @@ Call(i, ov) ==
     /\ files' = CASE kind = "fresh"    -> FilesOf(i)
                   [] kind = "override" -> (IF OverrideClears THEN {} ELSE files) \cup FilesOf(i)
                   [] kind = "reuse"    -> files
-    /\ ret'   = IF kind = "reuse" THEN (IF ReuseRestores THEN wtml ELSE DefaultDesc) ELSE Desc(i)
+    /\ ret'   = IF kind = "reuse" THEN (IF ReuseRestores THEN Recovered ELSE DefaultDesc) ELSE Desc(i)
+    /\ cache' = CASE kind = "reuse"    -> (IF Cache = "none" \/ ~ReuseRestores THEN NoDesc ELSE Recovered)
+                  [] kind = "override" -> (IF Cache = "stale" THEN cache ELSE NoDesc)
+                  [] kind = "fresh"    -> cache
     /\ hist'  = Append(hist, [input |-> i, override |-> ov, kind |-> kind, disk |-> wtml'.id,
                               ret |-> ret'.id, levels |-> wtml'.levels, ret_levels |-> ret'.levels,
                               files |-> files'])
